@@ -21,7 +21,7 @@ class Pointer(int, BaseType, Generic[T]):
     _context: dict[str, Any] | None
     _value: T | None
 
-    def __new__(cls, value: int, stream: BinaryIO | None, context: dict[str, Any] | None = None) -> Self:
+    def __new__(cls, value: int, stream: BinaryIO | None = None, context: dict[str, Any] | None = None) -> Self:
         obj = super().__new__(cls, value)
         obj._stream = stream
         obj._context = context
@@ -35,6 +35,9 @@ class Pointer(int, BaseType, Generic[T]):
         return str(self.dereference())
 
     def __getattr__(self, attr: str) -> Any:
+        if attr.startswith("__") and attr.endswith("__"):
+            # Special methods are looked up on the pointer itself (e.g. by copy or pickle), not on what it points to
+            raise AttributeError(attr)
         return getattr(self.dereference(), attr)
 
     def __add__(self, other: int) -> Self:
